@@ -501,6 +501,113 @@ func vfC20Run(t *testing.T, res *vfResult, c vfC20Case, realTime bool) {
 	wait()
 }
 
+// vfC20Straggler: payloads written just before an update whose datagrams are overtaken by the KeyUpdate. The
+// receiver still holds the old generation, the datagrams arrive a moment later ("in time"), so the payloads must be
+// delivered - for a young epoch (control) and for one that has carried more than 2^16 records, where the 16 record
+// number bits on the wire have to be completed from that epoch's own history.
+func vfC20Straggler(t *testing.T, res *vfResult, suite string, before int, from string) {
+	res.Eval(1)
+	id := fmt.Sprintf("straggler|%s|records-before=%d|from=%s", suite, before, from)
+	replay := map[string]any{"straggler": id}
+	cfg := vfBaseCfg(vfSuiteByName(suite), "ecdsa")
+	cfg.CVer, cfg.SVer, cfg.HelloVerify = "13", "13", false
+	co, so := cfg.Options(nil, nil)
+	n := vfNewNet()
+	p, err := vfNewPair(n, co, so)
+	if err != nil {
+		res.Count("config_rejected", 1)
+
+		return
+	}
+	if ce, se := p.Handshake(time.Minute); ce != nil || se != nil {
+		res.Count("handshake_failed", 1)
+		p.Close()
+		synctest.Wait()
+
+		return
+	}
+	p.C.StartPump()
+	p.S.StartPump()
+	time.Sleep(3 * time.Second)
+	synctest.Wait()
+	x, y := vfSideOf(p, from)
+	for i := 0; i < before; i++ {
+		if _, err := x.Conn.Write([]byte(fmt.Sprintf("bulk-%06d", i))); err != nil {
+			res.Count("write_errors", 1)
+		}
+		if i%256 == 255 {
+			synctest.Wait()
+		}
+	}
+	synctest.Wait()
+	var hold atomic.Bool
+	var hmu sync.Mutex
+	var held []*vfWire
+	n.SetOnSend(func(n *vfNet, w *vfWire) {
+		if hold.Load() && w.From == x.Name {
+			hmu.Lock()
+			held = append(held, w)
+			hmu.Unlock()
+
+			return
+		}
+		n.Deliver(w.Dst, w.Data, vfAddrOf(w.From))
+	})
+	hold.Store(true)
+	var stragglers [][]byte
+	for i := 0; i < 3; i++ {
+		pl := []byte(fmt.Sprintf("written-before-the-update-%d-%s", i, vfShortHash(id, fmt.Sprint(i))))
+		stragglers = append(stragglers, pl)
+		_, _ = x.Conn.Write(pl)
+	}
+	synctest.Wait()
+	hold.Store(false)
+	ctx, cancel := context.WithTimeout(context.Background(), 30*time.Second)
+	uerr := x.Conn.UpdateKeys(ctx, KeyUpdateOptions{})
+	cancel()
+	if uerr != nil {
+		res.Count("straggler_update_failed", 1)
+		res.Seen("straggler_update_errors", vfErrNorm(uerr))
+		p.Close()
+		synctest.Wait()
+
+		return
+	}
+	after := []byte("written-after-the-update-" + vfShortHash(id))
+	_, _ = x.Conn.Write(after)
+	synctest.Wait()
+	hmu.Lock()
+	hs := held
+	hmu.Unlock()
+	for _, w := range hs {
+		n.Deliver(w.Dst, w.Data, vfAddrOf(w.From))
+	}
+	time.Sleep(100 * time.Millisecond)
+	synctest.Wait()
+	got := map[string]int{}
+	for _, rd := range y.ReadsSnapshot() {
+		got[string(rd)]++
+	}
+	res.NonTrivial(id)
+	res.Count("stragglers_released_after_update", int64(len(hs)))
+	if got[string(after)] != 1 {
+		res.Count("straggler_case_without_post_update_delivery", 1)
+	}
+	for _, pl := range stragglers {
+		switch got[string(pl)] {
+		case 1:
+			res.Count("stragglers_delivered", 1)
+		case 0:
+			res.Violate(fmt.Sprintf("C20:payload-lost-although-delivered:straggler:%s", map[bool]string{true: "epoch-beyond-65536-records", false: "young-epoch"}[before >= 65536]),
+				fmt.Sprintf("%s: a payload written before UpdateKeys, whose datagram reached the peer right after the KeyUpdate, was never returned by Read (the peer read %d payloads in all)", id, len(y.ReadsSnapshot())), replay)
+		default:
+			res.Violate("C20:payload-delivered-twice:straggler", fmt.Sprintf("%s: delivered %d times", id, got[string(pl)]), replay)
+		}
+	}
+	p.Close()
+	synctest.Wait()
+}
+
 func vfC20Cases() []vfC20Case {
 	var out []vfC20Case
 	idx := 0
@@ -551,6 +658,16 @@ func TestVF_C20(t *testing.T) {
 	}
 	cases := vfC20Cases()
 	vfBubbles(t, len(cases), func(t *testing.T, i int) { vfC20Run(t, res, cases[i], false) })
+	type sg struct {
+		suite  string
+		before int
+		from   string
+	}
+	sgs := []sg{{"13-GCM128", 200, "c"}, {"13-CHACHA", 200, "s"}, {"13-GCM128", 65536 + 20, "c"}}
+	if vfThorough() {
+		sgs = append(sgs, sg{"13-CHACHA", 65536 + 300, "s"}, sg{"13-GCM256", 2*65536 + 5, "c"}, sg{"13-GCM256", 65535, "s"})
+	}
+	vfBubbles(t, len(sgs), func(t *testing.T, i int) { vfC20Straggler(t, res, sgs[i].suite, sgs[i].before, sgs[i].from) })
 	// real scheduler (race detector build): no injected faults, more writers
 	nr := vfPick(24, 400)
 	vfParallel(nr, func(_, i int) {
@@ -562,5 +679,6 @@ func TestVF_C20(t *testing.T) {
 	res.Floor("records_decrypted_along_reference_chain", 2000)
 	res.Floor("prompt_payloads_checked", 500)
 	res.Floor("future_generation_records_injected", int64(len(cases)/2))
+	res.Floor("stragglers_delivered", 6)
 	res.Finish(t)
 }
